@@ -78,33 +78,71 @@ def _snapshot(transfer) -> dict:
     }
 
 
+class ObservedLock(asyncio.Lock):
+    """The transfer's own ``_state_lock`` with observation points right after
+    acquisition and right before release (i.e. *inside* the lock), whatever the
+    library's lock wrapper does internally."""
+
+    def __init__(self, transfer):
+        super().__init__()
+        self._vf_transfer = transfer
+        self._vf_recs: dict = {}
+
+    async def acquire(self):
+        r = await super().acquire()
+        mon = _CURRENT_TM
+        if mon is not None:
+            rec = self._vf_recs.get(asyncio.current_task())
+            if rec is not None and 't_lock' not in rec:
+                mon.op_locked(rec, self._vf_transfer)
+        return r
+
+    def release(self):
+        mon = _CURRENT_TM
+        if mon is not None:
+            rec = self._vf_recs.get(asyncio.current_task())
+            if rec is not None and 't_lock' in rec and 'after' not in rec:
+                mon.op_releasing(rec, self._vf_transfer)
+        super().release()
+
+
 def install_transfer_hooks():
-    """Idempotent; must run before any Transfer object is created."""
+    """Idempotent; must run before any Transfer object is created.  The
+    library's own ``_with_state_lock`` is kept and called: the hook only adds a
+    record per call and observes through the transfer's lock."""
     global _tm_installed
     if _tm_installed:
         return
     import aioslsk.transfer.state as st
     import aioslsk.transfer.model as model
 
+    lib_with_state_lock = st._with_state_lock
+
     def _with_state_lock(func):
         name = getattr(func, '__name__', '?')
+        lib_wrapper = lib_with_state_lock(func)
 
         async def wrapper(obj, *args, **kwargs):
             mon = _CURRENT_TM
-            if mon is None:
-                async with obj.transfer._state_lock:
-                    result = await func(*args, **kwargs)
-                return result
             transfer = obj.transfer
+            lock = transfer._state_lock
+            if mon is None or not isinstance(lock, ObservedLock):
+                return await lib_wrapper(obj, *args, **kwargs)
+            task = asyncio.current_task()
             rec = mon.op_called(transfer, name, obj.VALUE.name, args, kwargs)
-            async with transfer._state_lock:
-                mon.op_locked(rec, transfer)
-                try:
-                    result = await func(*args, **kwargs)
-                except BaseException as exc:  # noqa
-                    mon.op_done(rec, transfer, None, exc)
-                    raise
-                mon.op_done(rec, transfer, result, None)
+            outer = lock._vf_recs.get(task)
+            lock._vf_recs[task] = rec
+            try:
+                result = await lib_wrapper(obj, *args, **kwargs)
+            except BaseException as exc:  # noqa
+                mon.op_done(rec, transfer, None, exc)
+                raise
+            finally:
+                if outer is None:
+                    lock._vf_recs.pop(task, None)
+                else:
+                    lock._vf_recs[task] = outer
+            mon.op_done(rec, transfer, result, None)
             return result
 
         return wrapper
@@ -118,12 +156,14 @@ def install_transfer_hooks():
         orig_init(self, *a, **kw)
         mon = _CURRENT_TM
         if mon is not None:
+            self._state_lock = ObservedLock(self)
             mon.register(self, loaded=False)
 
     def __setstate__(self, state):
         orig_setstate(self, state)
         mon = _CURRENT_TM
         if mon is not None:
+            self._state_lock = ObservedLock(self)
             mon.register(self, loaded=True)
 
     model.Transfer.__init__ = __init__
@@ -210,9 +250,13 @@ class TransferMonitor:
         self.loaded.discard(tid)
         self.last[tid] = new
         if not edge_ok(old, new, direction):
+            key = self.key(transfer)
+            running = [o for o in self.ops if o['transfer'] == key and 't_lock' in o and 't_done' not in o]
+            stale = any(o['dispatched'] != o['actual'] for o in running)
+            sig = 'illegal-edge:via-stale-dispatch' if stale else f'illegal-edge:{old}->{new}:{direction.lower()}'
             self.violations.append((
-                f'illegal-edge:{old}->{new}:{direction.lower()}',
-                {'t': self.now, 'transfer': self.key(transfer), 'recent_ops': self._recent_ops(transfer)}))
+                sig, {'t': self.now, 'transfer': key, 'edge': f'{old}->{new}', 'direction': direction.lower(),
+                      'recent_ops': self._recent_ops(transfer)}))
         for hook in self.edge_hooks:
             hook(transfer, old, new)
         if new == 'COMPLETE':
@@ -239,12 +283,20 @@ class TransferMonitor:
         rec['actual'] = transfer.state.VALUE.name
         rec['before'] = _snapshot(transfer)
 
+    def op_releasing(self, rec: dict, transfer):
+        rec['after'] = _snapshot(transfer)
+        rec['after_state'] = transfer.state.VALUE.name
+
     def op_done(self, rec: dict, transfer, result, exc):
         self.counters['m2_ops'] += 1
         rec['t_done'] = self.now
         rec['result'] = result if exc is None else f'raised {type(exc).__name__}'
-        rec['after_state'] = transfer.state.VALUE.name
-        after = _snapshot(transfer)
+        if 't_lock' not in rec or 'after' not in rec:
+            # cancelled while waiting for the lock, or the lock was never taken
+            rec.pop('before', None)
+            return
+        after = rec.pop('after')
+        before = rec.pop('before')
         direction = rec['direction']
         op, dispatched, actual = rec['op'], rec['dispatched'], rec['actual']
         stale = dispatched != actual
@@ -256,20 +308,20 @@ class TransferMonitor:
         if result:
             if not allowed:
                 self.violations.append((
-                    f"disallowed-op-took-effect:{op}:in-{actual}:{direction.lower()}" + (':stale-dispatch' if stale else ''),
-                    {'t': rec['t_done'], 'transfer': rec['transfer'], 'dispatched_on': dispatched, 'actual_state': actual,
+                    'stale-dispatch:op-took-effect-in-a-state-entered-while-waiting-for-the-lock' if stale
+                    else f"disallowed-op-took-effect:{op}:in-{actual}:{direction.lower()}",
+                    {'t': rec['t_done'], 'op': op, 'direction': direction.lower(), 'transfer': rec['transfer'], 'dispatched_on': dispatched, 'actual_state': actual,
                      'after_state': rec['after_state'], 'waited_for_lock': rec['locked_at_call'],
-                     'before': rec['before'], 'after': after}))
+                     'before': before, 'after': after}))
         else:
             self.counters['m2_refused'] += 1
-            diff = {k: (rec['before'][k], after[k]) for k in after if rec['before'][k] != after[k]}
+            diff = {k: (before[k], after[k]) for k in after if before[k] != after[k]}
             if rec['after_state'] != actual:
                 diff['state'] = (actual, rec['after_state'])
             if diff:
                 self.violations.append((
                     f"refused-op-side-effect:{op}:in-{actual}:{direction.lower()}:" + '+'.join(sorted(diff)),
                     {'t': rec['t_done'], 'transfer': rec['transfer'], 'dispatched_on': dispatched, 'diff': diff}))
-        rec.pop('before', None)
 
     # -- reporting ---------------------------------------------------------------
     def report(self, res: dict, prop_filter=None):
